@@ -18,7 +18,7 @@ from . import fsmon, model, sig
 SP_VALUES = {
     "a": [1, 1.0, "1"],
     "b": [0, 1, True],
-    "c": ["x", "y é"],
+    "c": ["x", "y é", None, ""],
     "n": [{"x": 1}, {"x": 2}, [1, 2]],
 }
 # One value family per document key: the dependency's in-place reload keeps an existing value that
